@@ -107,7 +107,7 @@ def job_pad_lemma():
 
 def job_make_header(directio_i):
     """the real _make_header on an in-memory file for every header length 1..40 cards: bytes written follow
-    the (sliced) model, cards are 80 bytes, END terminates, PKTIDX advances"""
+    the (sliced) model, cards are 80 bytes, END terminates"""
     recs = []
     dv, padded = DIRECTIO_VARIANTS[directio_i]
     pad = pad_expr_of_make_header()
@@ -129,7 +129,8 @@ def job_make_header(directio_i):
             h = len(hd) + 1
             want = 80 * h + (int(pad(h)) if padded else 0)
             okc = (len(raw) == want and bytes(raw[80 * (h - 1):80 * h]) == f"{'END':<80}".encode() and all(b == 0 for b in raw[80 * h:])
-                   and hd['PKTIDX'] == 7 + be.samples_per_block and (not padded or len(raw) % 512 == 0) and (not padded or len(raw) - 80 * h < 512))
+                   and (not padded or len(raw) % 512 == 0) and (not padded or len(raw) - 80 * h < 512))
+            # (which function advances PKTIDX is an implementation detail; the sequence is checked on whole recordings)
             if not okc and bad is None:
                 bad = (ncards, len(raw), want)
     r, _ = core.check([RV(int(bad is None)) != 1])
@@ -549,6 +550,12 @@ def replay_record(p):
                     msgs.append(f"blimpy failed on block {cnt} of {fn}: {type(e).__name__}")
         if total != nblocks:
             msgs.append(f"{total} blocks, requested {nblocks}")
+        pk = []
+        for fn in files:
+            bl, _e = parse_file(list(open(os.path.join(d, fn), 'rb').read()))
+            pk += [int(h_['PKTIDX']) for h_ in (bl or [])]
+        if pk != [1000 + i * be.samples_per_block for i in range(len(pk))]:
+            msgs.append(f"PKTIDX sequence over the recording {pk}, expected steps of {be.samples_per_block} from 1000")
         import glob as _g
         for perm in itertools.permutations([os.path.join(d, f) for f in files]):
             orig = ru.glob.glob
